@@ -166,7 +166,10 @@ def main():
         sj = os.path.join(work, "%s.%d.json" % (cid, i))
         data = None
         if os.path.exists(sj):
-            data = json.load(open(sj))
+            try:
+                data = json.load(open(sj))
+            except ValueError:
+                data = None
         for line in out.splitlines():
             if "VIOLATION-FILE " in line:
                 p = line.split("VIOLATION-FILE ", 1)[1].strip()
@@ -279,4 +282,12 @@ def main():
 
 
 if __name__ == "__main__":
-    main()
+    try:
+        main()
+    except SystemExit:
+        raise
+    except BaseException as ex:  # a driver bug must never look like a violation
+        import traceback
+        traceback.print_exc()
+        log("INCONCLUSIVE: driver error", repr(ex))
+        sys.exit(2)
